@@ -1,6 +1,6 @@
 (* C19 - Command-line values mean what the manual says. *)
 From Coq Require Import ZArith List Bool.
-From V Require Import Base.Duration Base.Str Model.Flags Model.Pacer Proofs.FlagsProofs Proofs.DecimalProofs.
+From V Require Import Base.Duration Base.Str Base.DurString Model.Flags Model.Pacer Proofs.FlagsProofs Proofs.DecimalProofs Proofs.DurStringProofs.
 Import ListNotations.
 Open Scope Z_scope.
 
@@ -75,6 +75,19 @@ Proof.
   intros n Hn. split; [apply atoi_itoa_lemma | apply itoa_no_slash]; exact Hn.
 Qed.
 Print Assumptions rate_print_parse.
+
+(* the printing of durations as well (Base/DurString.v, a model of time.Duration.String compared
+   with the printed form of every rate on each run): Duration.String followed by ParseDuration is
+   the identity on positive durations, so the printed form of every rate parses back to it *)
+Theorem duration_string_parses : forall d, 0 < d < two63 ->
+  parse_duration (dur_string d) = Some (d, false) /\ bare_unit (dur_string d) = false.
+Proof. exact dur_string_parses_lemma. Qed.
+Print Assumptions duration_string_parses.
+Theorem rate_print_parse_closed : forall fixed cur freq per,
+  - two63 <= freq < two63 -> freq <> 0 -> 0 < per < two63 ->
+  rate_set fixed cur (itoa freq ++ 47 :: dur_string per) = Some (freq, per).
+Proof. exact (rate_print_parse dur_string duration_string_parses). Qed.
+Print Assumptions rate_print_parse_closed.
 
 (* repeated -header flags accumulate in order, keys byte-for-byte (case preserved) *)
 Theorem headers_set_wellformed : forall h k v pad1 pad2,
